@@ -301,7 +301,7 @@ func body() {
 	// tail: every case has finished its sequencing; wait until no owner
 	// goroutine is left (watchdog only), then audit the rest.
 	for i := 0; i < 2000; i++ {
-		if inflight("") == 0 {
+		if inflightOf("") == 0 {
 			break
 		}
 		time.Sleep(10 * time.Millisecond)
